@@ -538,6 +538,18 @@ fn table_cases(thorough: bool) -> Vec<TableCase> {
                         (Some(a), Some(b)) if a > b => "w<-narrower",
                         _ => "w<-wider",
                     };
+                    if is_decl && !konst {
+                        // the same declaration when the name is already bound in this scope: it is
+                        // reported as a redeclaration, and its initializer is judged all the same
+                        out.push(TableCase {
+                            key: if fname.contains("literal") { format!("decl:{}<-{}:{fname}:redeclared", t.name, v.name) } else { format!("decl:{}<-{}:{fname}:{wc}:redeclared", t.name, v.name) },
+                            text: format!("{prelude}\nbool x;\n{stmt}"),
+                            target: tt_type(t, konst),
+                            must,
+                            same_type: same,
+                            is_decl,
+                        });
+                    }
                     out.push(TableCase {
                         // a literal has no written width: its key does not carry the width class
                         key: if fname.contains("literal") {
